@@ -235,6 +235,8 @@ def run(ctx, texts, stream_name="run", features=None, min_modelled=0.5, timeout=
         if too_deep(text):
             continue                    # the host's stack depth is not modelled (C06's depth family observes the real code there)
         real = real_answer(R, text, None, timeout)
+        if real.startswith("escaped ") and ctx.pid in ("C06", "PIPE"):
+            ctx.violation("exec:ESCAPE:" + text[:200], text, "status 0 or 1 (no host exception escapes)", real, "execute(%r)" % text)
         cases.append(("%s %s" % (stream_name, _hex(text)), real, (text, tags)))
     stats = dict(total=len(cases), modelled=0, unmodelled=0, skipped_other=0, disagreements=0, by_feature={}, unmodelled_reasons={},
                  outcomes={})
@@ -292,6 +294,13 @@ def run_sessions(ctx, sessions, stream_name="runsess", timeout=5.0):
             continue
         env = R.new_env()
         reals = [real_answer(R, t, env, timeout) for t in inputs]
+        if ctx.pid in ("C06", "PIPE"):
+            for i_, r_ in enumerate(reals):
+                if r_.startswith("escaped "):
+                    ctx.violation("exec:ESCAPE-session:" + " ;; ".join(inputs[: i_ + 1])[:300], " ;; ".join(inputs[: i_ + 1]),
+                                  "every input of the session ends in status 0 or 1", "input %d: %s" % (i_ + 1, r_),
+                                  "one EvalEnvironment, execute() of each input in order")
+                    break
         cases.append(("%s %s" % (stream_name, ";".join(_hex(t) for t in inputs)), ";".join(reals), inputs))
     stats = dict(sessions=len(cases), inputs=0, compared=0, disagreements=0)
 
